@@ -376,9 +376,23 @@ def tensor(vk, cfg):
                     n += 1
                     ok = ok and len(r) == len(exp) and np.allclose(r, exp, rtol=0, atol=1e-14)
         vk.bounded_standin("linsteps closed form", "break points <= 4, steps <= 5", n, ok)
-        with symnp.native():
-            r = M.linsteps([0, 1], num=4, axis=1, axes=3, values=[7, 0, 9])
-        vk.bounded_standin("linsteps axis embedding", "one case", 1, bool(np.allclose(r[:, 1], [0, 0.25, 0.5, 0.75, 1]) and np.all(r[:, 0] == 7) and np.all(r[:, 2] == 9)))
+        # axis embedding: column `axis` carries the sequence (the entry of `values` for that column is documented as not
+        # used), every other column is constant at its entry of `values` (scalar: the same for all)
+        ok, n, bad = True, 0, ""
+        for axes_ in (1, 2, 3):
+            for axis_ in range(axes_):
+                for vals in (0.0, 1.5, [7.0, -2.0, 9.0][:axes_], [0.0, 3.0, 0.0][:axes_]):
+                    for endpoint in (True, False):
+                        with symnp.native():
+                            r = M.linsteps([0, 1, -1], num=2, endpoint=endpoint, axis=axis_, axes=axes_, values=vals)
+                            seq = M.linsteps([0, 1, -1], num=2, endpoint=endpoint)
+                        v = np.broadcast_to(np.asarray(vals, dtype=float), (axes_,))
+                        good = r.shape == (len(seq), axes_) and np.array_equal(r[:, axis_], seq) and all(np.all(r[:, k] == v[k]) for k in range(axes_) if k != axis_)
+                        n += 1
+                        if not good and not bad:
+                            bad = f"linsteps([0, 1, -1], num=2, endpoint={endpoint}, axis={axis_}, axes={axes_}, values={vals}) = {np.asarray(r).tolist()}"
+                        ok = ok and good
+        vk.bounded_standin("linsteps axis embedding (column `axis` == the sequence, other columns == values)", "axes <= 3, every axis, 4 kinds of values, endpoint on/off" + (": " + bad if bad else ""), n, bool(ok))
 
 
 def _blockone(dim, axis, one):
